@@ -340,6 +340,28 @@ def _rest(report, p, pr, info, reach, loader, c30, listers):
     r5.instance(F, i, "digest lines per entry iteration")
     r5.check(bool(n_lines) and all(k == 1 for k in n_lines), F, i, f"an entry iteration of the per-file listing prints {sorted(set(n_lines))} digest line(s) with verbose off; exactly one is required", construct="digest lines per entry")
 
+    # ------------------------------------------------------------------ R19.6
+    r6 = report.rule(
+        "R19.6",
+        "every generation is loaded ONCE: in the loader the manifests that were parsed are handed to the history (append_hash_list) after the walk over the ascmhl "
+        "folder, not inside it - appended once per folder the walk visits, every generation shows up again for each sub-directory of the ascmhl folder (info lists "
+        "1,2,1,2 and prints every digest line several times)",
+        1,
+    )
+    ld = p.funcs.get("ascmhl.history.MHLHistory.load_from_path")
+    if ld is None:
+        raise AnalysisError("MHLHistory.load_from_path not found")
+    lfs = [ld] + [p.funcs[q] for q in p.reachable([ld.qual]) if q in p.funcs and p.funcs[q].module is ld.module and q != ld.qual and p.funcs[q].cls == ld.cls and p.funcs[q].name.startswith("_")]
+    n6 = 0
+    for lf in lfs:
+        for c in [c for c in walk_no_nested(lf.node) if isinstance(c, ast.Call) and isinstance(c.func, ast.Attribute) and c.func.attr == "append_hash_list"]:
+            n6 += 1
+            r6.instance(lf, c, f"{lf.name}: {norm(c)[:50]}")
+            walk_loops = [a for a in _ancs(c) if isinstance(a, ast.For) and any(isinstance(x, ast.Call) and norm(x.func) in ("os.walk", "os.listdir", "os.scandir", "glob.glob") for x in ast.walk(a.iter))]
+            r6.check(not walk_loops, lf, c, f"`{norm(c)[:50]}` runs inside the loop over `{norm(walk_loops[0].iter)[:40] if walk_loops else ''}`: the list of parsed manifests is appended to the history once per folder the walk visits, so any sub-directory inside the ascmhl folder makes every generation appear again - info lists the generations repeatedly (not ascending) and info -sf prints each digest line more than once", construct=f"{lf.name}: generations appended inside the folder walk")
+    if n6 == 0:
+        raise AnalysisError("loader: no append_hash_list call found")
+
     include_rules(report, p, 'c03', ['R3.17'], 'info must fail with the no-history code (30): a local that shadows the `errors` module turns the raise into UnboundLocalError (exit 1)')
     include_rules(report, p, 'c03', ['R3.16'], 'info must print every record: a sort that raises ends the listing')
     include_rules(report, p, 'c10', ['R10.8'], 'info prints what the readers loaded: a reader that stops early (a fast path that skips the <hashes> section, a break on some tag) makes info -sf print fewer digests than the manifests hold')
